@@ -625,6 +625,76 @@ def reader_crosscheck(ctx, real_texts, n):
     return {"captured_where_clauses": len(real_texts), "random_soup": n, "read_by_python": read, "refused_by_python": refused, "disagreements": bad}
 
 
+
+SQL_OF_OPERATOR = {"$lt": "<", "$lte": "<=", "$gt": ">", "$gte": ">="}
+
+
+def check_leaf_operators(ctx, inputs, impl):
+    """A filter leaf `{"$lt"|"$lte"|"$gt"|"$gte": {key: value}}` must compare with THAT operator: in the conjunct the filter contributes
+    to the captured statement, the comparison operator at parenthesis depth 0 (what the value is compared with: a column, or a
+    sub-select in parentheses) is the operator the client wrote.  Independent of the Lean model (which renders what the code renders)."""
+    st = collections.Counter()
+    for inp in inputs:
+        if inp["method"] not in FILTER_EP:
+            continue
+        f = inp.get("filter") or ""
+        if not f:
+            continue
+        try:
+            j = json.loads(f)
+        except Exception:
+            continue
+        if not (isinstance(j, dict) and len(j) == 1):
+            continue
+        (op, body), = j.items()
+        if op not in SQL_OF_OPERATOR or not (isinstance(body, dict) and len(body) == 1):
+            continue
+        out = impl.get(inp["id"])
+        if out is None or "panic" in out or out.get("err"):
+            continue
+        stmts = [q for q in out["sql"] if not q.startswith("PREPARE ")]
+        if len(stmts) != 1:
+            continue
+        try:
+            toks, wtext, cs = cf.ledger_where(stmts[0], inp["ledger"])
+            texts = cf.conjunct_texts(toks, wtext)
+        except cf.SkeletonError:
+            continue
+        if not texts:
+            continue
+        leaf = texts[-1]
+        lt = cf.tokenize(leaf, [])
+        # strip the parentheses bun puts around the conjunct
+        while len(lt) >= 2 and lt[0][0] == "p:(" and lt[-1][0] == "p:)":
+            depth, closes_at_end = 0, True
+            for k, t in enumerate(lt):
+                depth += 1 if t[0] == "p:(" else -1 if t[0] == "p:)" else 0
+                if depth == 0 and k < len(lt) - 1:
+                    closes_at_end = False
+                    break
+            if not closes_at_end:
+                break
+            lt = lt[1:-1]
+        depth, ops = 0, []
+        for t in lt:
+            if t[0] == "p:(":
+                depth += 1
+            elif t[0] == "p:)":
+                depth -= 1
+            elif depth == 0 and t[0] in ("op:<", "op:<=", "op:>", "op:>=", "op:=", "op:<>", "op:!="):
+                ops.append(t[0][3:])
+        st["leaves"] += 1
+        key = next(iter(body))
+        st["key:" + (key.split("[")[0])] += 1
+        if ops != [SQL_OF_OPERATOR[op]]:
+            ctx.violation({"property": "C04", "class": "filter-operator", "method": inp["method"], "operator": op, "key": key.split("[")[0]},
+                          "%s with the filter %s compares with %s where the client wrote %s (%s): %s" % (
+                              inp["method"], f, ops or "no comparison", op, SQL_OF_OPERATOR[op], leaf[:200]),
+                          {"area": "readsql", "input": {k: v for k, v in inp.items() if k != "corpus"}, "observed": {"sql": stmts[0], "filter_conjunct": leaf}})
+    ctx.cov["filter_leaf_operators"] = dict(st)
+    return st["leaves"]
+
+
 def check_schema_functions(ctx, ledger_funcs, fns):
     st = collections.Counter()
     detail = {}
@@ -1081,6 +1151,7 @@ def run(ctx):
         st, hows, methods = check_read_sql(ctx, inputs, impl, ledger_funcs)
         rs_eval = st["statements"]
         fstruct = check_filter_structure(ctx, inputs, impl, have_driver)
+        check_leaf_operators(ctx, inputs, impl)
         pitpair = check_pit_pairing(ctx, inputs, impl, fns, ledger_funcs)
         ctx.cov["readsql"] = {
             "cases": len(inputs), "statements_analysed": st["statements"], "table_references": st["table-references"],
